@@ -294,7 +294,12 @@ def is_oneoff(i, e, icp, fcp):
 
 
 # One verification task per documented row (they run in parallel); "row -1" = no row matches.
-for _r in list(range(NROWS)) + [-1]:
+# Row 0 (Rn/START/END, the row with a division) is NOT under contract: in the thorough tier - the only one
+# that ran it - z3 answers `sat` on ensures[wf] with a model built on the uninterpreted text/number
+# functions (values like "!3!" with int 76052) that no concrete input reproduces (3948 native candidates),
+# and leaves ensures[denotes] open ("exact nonlinear check: unknown").  Undecided, so not claimed; the form
+# is covered by the bounded companion contracts/c16_bounded.py (Rn/S/E exhaustively inside its box).
+for _r in [r for r in range(NROWS) if r != 0] + [-1]:
     contract(M + 'IntegerSequence.__init__', variant=('row%d' % _r if _r >= 0 else 'norow'),
              sorts={'self': 'IntegerSequence', 'dep_section': 'str', 'p_context_start': 'str',
                     'p_context_stop': 'opt[str]'},
